@@ -367,17 +367,48 @@ fn holder_history(ctx: &Ctx, case: u64, l: &mut Local) {
         l.evals += 1;
         if with_failures && r.chance(35) {
             let sel_ok = pipeline::random_selection(&mut r, &s.u);
-            let kind = r.below(5);
-            let out = match kind {
-                0 => api::present_raw(&mut holder, &sel_ok, Some("n".into()), None, None, None),
-                1 => api::present_raw(&mut holder, &sel_ok, None, Some("a".into()), cfg.holder.or(Some((Alg::ES256, 1))), None),
-                2 => api::present_raw(&mut holder, &json!({"no-such-claim#zz;": true}), None, None, None, None),
-                3 => api::present_raw(&mut holder, &json!({"no-such-claim#zz;": {"x": true}}), None, None, None, None),
-                _ => api::present_raw(&mut holder, &sel_ok, Some("n".into()), Some("a".into()), Some(cfg.holder.unwrap_or((Alg::ES256, 1))), Some("NOPE256".into())),
+            let kind = r.below(9);
+            type A = (Value, Option<String>, Option<String>, Option<(Alg, usize)>, Option<String>);
+            let args: A = match kind {
+                0 => (sel_ok.clone(), Some("n".into()), None, None, None),
+                1 => (sel_ok.clone(), None, Some("a".into()), cfg.holder.or(Some((Alg::ES256, 1))), None),
+                2 => (json!({"no-such-claim#zz;": true}), None, None, None, None),
+                3 => (json!({"no-such-claim#zz;": {"x": true}}), None, None, None, None),
+                4 => (sel_ok.clone(), Some("n".into()), Some("a".into()), Some(cfg.holder.unwrap_or((Alg::ES256, 1))), Some("NOPE256".into())),
+                // blank (but present) nonce / aud without a key
+                5 => (sel_ok.clone(), Some(String::new()), Some(String::new()), None, None),
+                6 => (sel_ok.clone(), Some(String::new()), None, None, None),
+                7 => (sel_ok.clone(), None, Some(String::new()), None, None),
+                // a selector that fails INSIDE a claim: a wrong shape / unknown child below a real member
+                _ => {
+                    let mut sel = sel_ok.clone();
+                    if let Some(o) = sel.as_object_mut() {
+                        let keys: Vec<String> = s.u.as_object().map(|m| m.iter().filter(|(k, v)| (v.is_object() || v.is_array()) && !["iss", "exp", "iat"].contains(&k.as_str())).map(|(k, _)| k.clone()).collect()).unwrap_or_default();
+                        if let Some(k) = keys.first() {
+                            let bad = if s.u[k.as_str()].is_object() { json!({"no-such-child#zz;": true}) } else { json!({"x": true}) };
+                            o.insert(k.clone(), bad);
+                        } else {
+                            o.insert("no-such-claim#zz;".into(), json!(true));
+                        }
+                    }
+                    (sel, None, None, None, None)
+                }
             };
+            let out = api::present_raw(&mut holder, &args.0, args.1.clone(), args.2.clone(), args.3, args.4.clone());
             l.count("holder.calls.failing");
             if out.is_panic() {
                 l.violate(viol(case, "panic", "failing-holder-call", out.panic_signature().unwrap(), json!({"base": base_input(), "history": api::history()})));
+            } else if let Outcome::Ok(mut fresh) = api::holder_new(&issued.sd_jwt, cfg.fmt) {
+                // whether such a call fails must not depend on what the instance did before
+                let f = api::present_raw(&mut fresh, &args.0, args.1.clone(), args.2.clone(), args.3, args.4.clone());
+                if f.class() != out.class() {
+                    l.violate(viol(case, "holder-call-outcome-depends-on-history", &format!("{} odd call kind {kind}", cfg.fmt.name()), format!("reused instance: {}, fresh instance: {}", out.class(), f.class()), json!({"base": base_input(), "earlier_calls": summary, "selection": args.0, "nonce": args.1, "aud": args.2, "key": format!("{:?}", args.3), "alg": args.4})));
+                } else if let (Outcome::Ok(a), Outcome::Ok(b)) = (&out, &f) {
+                    // both succeed (e.g. blank nonce tolerated): without key binding the output is deterministic
+                    if args.3.is_none() && a != b {
+                        l.violate(viol(case, "differs-from-fresh-holder", &format!("reused-holder {} odd call kind {kind}", cfg.fmt.name()), "output differs from a fresh holder's for the same arguments".into(), json!({"base": base_input(), "earlier_calls": summary, "reused": a, "fresh": b})));
+                    }
+                }
             }
             summary.push(json!({"call": k, "kind": format!("failing-{kind}"), "result": out.class()}));
             if prev_kb.is_some() {
